@@ -244,6 +244,17 @@ def r5_to_csv(ctx):
         good = sorted(keys) == sorted(astx.const(x) for x in fn.elts) and lp is not None and astx.u(lp.iter) == "self.ballots" and no_skip \
             and pm.get(astx.stmt_of(rows[0], pm)) is lp and vals.get("weight") == f"float({b}.weight)" and vals.get("ranking") == "ranking" and vals.get("scores") == "scores"
     ctx.check(good, f, rows[0] if rows else f.node, "one row per ballot with exactly the declared fields (weight, ranking, scores)", d, f"writer is `{d}`")
+    # the row's ranking / scores are recomputed for every ballot (no value carried over from the previous one)
+    if rows:
+        lp = astx.enclosing(rows[0], pm, ast.For)
+        if lp is not None:
+            from vk import da
+            wanted = {astx.u(v) for v in rows[0].args[0].values if isinstance(v, ast.Name)}
+            fake = ast.parse("def _it(" + astx.u(lp.target) + "):\n    pass\n").body[0]
+            fake.body = lp.body
+            stale = sorted({fd.name for fd in da.DA(fake).run()} & wanted)
+            ctx.check(not stale, f, lp, "every row value is (re)computed inside the ballot loop on every path", "",
+                      f"{stale} can keep the value of the previous ballot (or of before the loop): a ballot without that part is written with another ballot's data")
     hdr = astx.calls_in(f.node, "writeheader")
     ctx.check(len(hdr) == 1 and (not rows or hdr[0].lineno < rows[0].lineno), f, hdr[0] if hdr else f.node, "header written once before the rows", "", "header handling changed")
 
@@ -253,7 +264,7 @@ RULES = [
     ("C18.R2", r2_grouping, 6, "groupby(dropna=False); weight source; one ballot per group; blanks kept"),
     ("C18.R3", r3_guards, 12, "guard / exception table for load_csv and load_scottish, before any ballot"),
     ("C18.R4", r4_scottish, 6, "Scottish: one split index at all uses; i+1 numbering; line parsing; return tuple"),
-    ("C18.R5", r5_to_csv, 2, "to_csv: one row per ballot, row keys = fieldnames"),
+    ("C18.R5", r5_to_csv, 3, "to_csv: one row per ballot, row keys = fieldnames"),
 ]
 
 CV = "src/votekit/cvr_loaders.py"
@@ -274,6 +285,9 @@ FAULTS = [
     ("scottish seats from wrong cell", [(CV, "    cand_num, seats = data[0][0], data[0][1]", "    cand_num, seats = data[0][0], data[0][0]")], "C18.R4"),
     ("to_csv skips zero weight", [(PP, "            for ballot in self.ballots:\n                if ballot.ranking:\n                    ranking = tuple([set(s) for s in ballot.ranking])", "            for ballot in self.ballots:\n                if ballot.weight == 0:\n                    continue\n                if ballot.ranking:\n                    ranking = tuple([set(s) for s in ballot.ranking])")], "C18.R5"),
     ("to_csv int weight", [(PP, "                        \"weight\": float(ballot.weight),", "                        \"weight\": int(ballot.weight),")], "C18.R5"),
+]
+FAULTS += [
+    ("to_csv carries ranking over", [(PP, "                if ballot.ranking:\n                    ranking = tuple([set(s) for s in ballot.ranking])\n                else:\n                    ranking = tuple()\n", "                if ballot.ranking:\n                    ranking = tuple([set(s) for s in ballot.ranking])\n")], "C18.R5"),
 ]
 BENIGN = [
     ("empty check via bool()", [(CV, "    if df.empty:\n", "    if bool(df.empty):\n")]),
